@@ -48,7 +48,7 @@ def bsfLoop (reasonable : Int) (self : String) (cs : ClusterState) (master : Str
       if det.length == 1 && (cs.get? self).isNone then .panic "clusterState[node.Host()]"
       else if already then .host streamFrom
       else match cs.get? streamFrom with
-        | none => .panic "clusterState[streamFrom]"                     -- unregistered stream_from
+        | none => .host master          -- unregistered stream_from: fall back to the master (a nil dereference before fix: 0b684d2)
         | some c =>
           if c.pingOk && !c.isOffline && reasonableLag reasonable c then .host streamFrom
           else bsfLoop reasonable self cs master topo fuel (streamFrom :: det)
